@@ -2,7 +2,7 @@
 import json, os
 import vf
 
-ALPHABETS = {"AKeywords": False, "ASymbols": True, "AErrors": False, "AOps": True, "ALayout": True}
+ALPHABETS = {"AKeywords": False, "ASymbols": True, "AErrors": False, "AOps": True, "ALayout": True, "AClusters": False}
 
 
 def lexer_cfg(alpha, n, relayouts):
